@@ -24,6 +24,7 @@ const (
 	OutPanicErr
 	OutPanicNil // nil-pointer dereference (runtime error)
 	OutGoexit   // the worker function leaves through runtime.Goexit (e.g. t.FailNow inside it): it never returns
+	OutPanicStruct // panic with a value that is neither a string nor an error
 )
 
 // Config of one episode.
